@@ -58,8 +58,8 @@ def secret_program(rng):
         b'80 PRINT "R";S;B%;FNZ(2);X+Y+Z;P',
         b'90 IF S>0 THEN 95 ELSE PRINT "' + cs[3] + b'"',
         b'95 END',
-        b'100 ' + name + b'=1:PRINT "' + cs[4] + b'"',
-        b'110 GOTO 100',
+        b'900 ' + name + b'=1:PRINT "' + cs[4] + b'"',
+        b'910 GOTO 900',
         b'500 ON ERROR GOTO 600:END',
         b'600 E%=ERR:STOP',
     ]
@@ -166,9 +166,13 @@ class World(object):
         elif op == 'EnterLine':
             t = {'new': b'12 REM typed', 'replace': b'10 REM replaced', 'delete': b'10'}[arg]
         elif op == 'DeleteLines':
-            t = rng.choice([b'DELETE 100-110', b'DELETE 110'])
+            # only ever removes the unreachable tail (also after RENUM, when these numbers no longer exist): the edits
+            # the driver makes never turn dead code that prints a literal into live code
+            t = rng.choice([b'DELETE 900-910', b'DELETE 910'])
         elif op == 'Renum':
-            t = rng.choice([b'RENUM', b'RENUM 1000,100,5'])
+            # whole-program renumbering only (a partial RENUM with a trap line outside the range runs into the RENUM/ON ERROR
+            # KeyError known from C14, which is not this property's business)
+            t = rng.choice([b'RENUM', b'RENUM 100', b'RENUM 1000,10,5'])
         elif op == 'Poke':
             t = b'POKE 1450,0' if arg == 'flag' else b'POKE %d,%d' % (cs + rng.randint(5, 30), rng.randint(0, 255))
         elif op == 'Bload':
@@ -461,8 +465,6 @@ def run(ctx):
     ctx.cov['runs_same_as_original'] = sum(1 for e in events if e['a']['op'] == 'Run' and e['same'] and e['obs']['prog'] == 'P')
     for e in (events[2], events[len(events) // 3], events[-1]):
         ctx.sample({k: e[k] for k in ('a', 'stmt', 'kind', 'code', 'leak', 'obs', 'out')})
-    if ctx.cov['refused_with_ifc'] < 100 or ctx.cov['trapped_outcomes'] < 5 or ctx.cov['runs_same_as_original'] < 10:
-        raise core.MachineryError('vacuous: %r' % ({k: ctx.cov[k] for k in ('refused_with_ifc', 'trapped_outcomes', 'runs_same_as_original')},))
     for (i, clause) in verdicts:
         e = events[i - 1]
         ctx.reject('C16 %s at %r -> %s %s%s (state %s)' % (clause, e['stmt'], e['kind'], e['code'], (' leak via ' + ','.join(e['where'])) if e['where'] else '',
@@ -470,5 +472,7 @@ def run(ctx):
                    key={'clause': clause, 'op': e['a']['op'], 'arg': e['a']['arg'], 'kind': e['kind'],
                         'via': sorted(set(w.split(':')[0] for w in e['where']))},
                    data={'event': e, 'history': [x['stmt'] for x in events[max(0, i - 10):i]]})
+    if not ctx.violations and (ctx.cov['refused_with_ifc'] < 100 or ctx.cov['trapped_outcomes'] < 5 or ctx.cov['runs_same_as_original'] < 10):
+        raise core.MachineryError('vacuous: %r' % ({k: ctx.cov[k] for k in ('refused_with_ifc', 'trapped_outcomes', 'runs_same_as_original')},))
     ctx.assumptions += ['canary fragments of >= 3 bytes (>= 4 in files) identify program text; line numbers in messages are not counted',
                         'the session is created with hide_protected=True (protection enforced)']
